@@ -128,3 +128,22 @@ func VerifC07OverlappingFailures() {
 	verifrt.WaitAll()
 	verifrt.Assert(cb.State() == StateOpen, "failure_threshold failed requests with no gap longer than interval open the breaker, also when the requests overlap in time")
 }
+
+// VerifC07ConcurrentFailuresAfterExpiredWindow: the breaker is closed with an
+// old failure whose counting window has expired; failure_threshold (2) requests
+// then arrive together and both fail, under every interleaving of their lock
+// operations (in particular: A has found the window expired and released the
+// read lock, B runs to completion and records a fresh failure, A then takes the
+// write lock). The two fresh failures are closer together than interval, so the
+// breaker is open afterwards - the reset of the expired window must not erase a
+// failure recorded after it was found expired.
+func VerifC07ConcurrentFailuresAfterExpiredWindow() {
+	cb := NewCircuitBreaker(Settings{Name: "verif", MaxRequests: 1, Interval: time.Minute, Timeout: time.Hour, FailureThreshold: 2, SuccessThreshold: 1})
+	verifExec(cb, func() error { return verifErrBoom })
+	verifrt.Advance(2 * time.Minute)
+	for i := 0; i < 2; i++ {
+		verifrt.Go(func() { verifExec(cb, func() error { return verifErrBoom }) })
+	}
+	verifrt.WaitAll()
+	verifrt.Assert(cb.State() == StateOpen, "failure_threshold requests that arrive together after an expired counting window and both fail open the breaker, however they interleave")
+}
